@@ -34,7 +34,10 @@ def gen_str(rng):
     if k == 7:
         return rng.choice(["\U0001F600", "a\U00010348b", "\U0001D11E\U0001D11E"])
     if k == 8:
-        return "two words and more"
+        # text that a formatting / templating / escaping layer might treat as its own: placeholders, format directives,
+        # entity and escape look-alikes, the last printable ASCII neighbours (DEL is legal unescaped in a JSON string)
+        return rng.choice(["two words and more", "Dear {name}, welcome", "{value}", "{name}: {value}", "{0} and {1}", "{}", "{{x}}", "%s and %d", "100%", "$1 ${x} $name", "&amp; &lt;x&gt;",
+                           "a\x7fb", "\x7f", "tilde~", "back`tick", "<tag attr='v'>", "a=b&c=d", "#hash", "/* c */ // d", "-- sql", "tab? no: space", "@at", "^caret", "pipe|pipe", "semi;colon", "q?mark", "!bang"])
     if k == 9:
         return text.printable(rng, 1, 25, weights=(6, 3, 1), exclude='"\\')
     return text.token(rng)
@@ -284,7 +287,20 @@ def str_class(s):
         return "literal-lookalike"
     if any(ord(ch) > 127 for ch in s):
         return "non-ascii"
-    for ch, nm in (("{", "bracket-or-brace"), ("}", "bracket-or-brace"), ("[", "bracket-or-brace"), ("]", "bracket-or-brace"), (",", "comma"), (":", "colon")):
+    if any(ch in s for ch in "{}[]"):
+        # balanced and properly nested brackets do not confuse a bracket-counting reader (they round-trip on the pinned tree);
+        # unbalanced ones do (known finding) - two mechanisms, two classes
+        st = []
+        ok = True
+        for ch in s:
+            if ch in "{[":
+                st.append(ch)
+            elif ch in "}]":
+                if not st or st.pop() != {"}": "{", "]": "["}[ch]:
+                    ok = False
+                    break
+        return "has-balanced-brackets" if ok and not st else "has-bracket-or-brace"
+    for ch, nm in ((",", "comma"), (":", "colon")):
         if ch in s:
             return "has-" + nm
     if s.isdigit():
@@ -339,7 +355,7 @@ def value_class(kind, x):
             return "empty"
         ek = {"l_str": "str", "l_bool": "bool", "l_f32": "f64", "l_f64": "f64"}.get(kind, "int")
         cl = set(value_class(ek, e) for e in x)
-        for k in ("non-ascii", "has-bracket-or-brace", "negative", "empty", "has-comma", "has-colon", "literal-lookalike", "digits", "has-space"):
+        for k in ("non-ascii", "has-bracket-or-brace", "has-balanced-brackets", "negative", "empty", "has-comma", "has-colon", "literal-lookalike", "digits", "has-space"):
             if k in cl:
                 return k
         nontriv = sorted(k for k in cl if k not in ("plain", "positive", "bool", "zero", "integral"))
